@@ -149,7 +149,7 @@ func TestVerifC12(t *testing.T) {
 		"squares deduplicated by ODS hash); per block the honest path on EVERY blob (commitment proof, GetProof, Included) and EVERY in-namespace share range " +
 		"(all [start,end) of same-namespace runs <= 24 shares, boundary classes of longer runs); the tamper-operator alphabet on every blob of the small blocks, on the " +
 		"first blob of every (width, rows, position, padding, subtree width) class of the wide blocks and on the first range of every (width, shape, rows, namespace kind) " +
-		"class; the alphabet includes DEGENERATE inputs (all components emptied with the commitment recomputed over the emptied list, row spans / ranges / totals / indexes " +
+		"class; the alphabet includes RE-SPLIT operators on every list of byte strings (nodes, subtree roots, row roots, aunts, proven data: same concatenation, another partition) and DEGENERATE inputs (all components emptied with the commitment recomputed over the emptied list, row spans / ranges / totals / indexes " +
 		"at wrap-around, zero, negative and maximal values with the components trimmed to the matching possibly-zero length), each against the real root, another block's root " +
 		"and two unrelated roots, as a struct and through its JSON form; every (start,end,height) with 0 <= start,end,height <= head+2 over a real header store x every tuple-proof operator; JSON-tree and byte operators on the " +
 		"wire forms. A case is one executed (input, claim) pair, distinct by a canonical hash of the input; non-trivial when the operator changed the honest input or claim"
